@@ -791,7 +791,7 @@ func mergeStates(base int, states []*State) *State {
 		}
 		for i := range s.defers {
 			if len(s.defers[i]) != len(out.defers[i]) {
-				unsupp("merge: path-dependent defer")
+				unsupp("merge: path-dependent defer (frame %d: %d vs %d deferred calls; %d live states)", i, len(s.defers[i]), len(out.defers[i]), len(live))
 			}
 		}
 	}
